@@ -1,6 +1,7 @@
 """C09 - seeded runs are reproducible and the library never resets the global RNG."""
 from __future__ import annotations
 
+import os
 import warnings
 
 import numpy as np
@@ -145,7 +146,21 @@ class threaded:
         self.stub = stub
 
     def __enter__(self):
-        self.cs = [patched(m, np=NpProxy(random=self.stub)) for m in MODULES]
+        stub = self.stub
+
+        def vf_hash(obj):
+            """builtin hash as seen by the library: hashing text is salted per interpreter process (PYTHONHASHSEED), i.e. an
+            entropy source outside every seed; numbers and tuples of numbers hash deterministically."""
+            def salted(o):
+                if isinstance(o, (str, bytes)):
+                    return True
+                if isinstance(o, (tuple, frozenset)):
+                    return any(salted(e) for e in o)
+                return False
+            if salted(obj):
+                stub.unseeded_entropy.append("hash() of text: salted per interpreter process")
+            return hash(obj)
+        self.cs = [patched(m, np=NpProxy(random=self.stub), hash=vf_hash) for m in MODULES]
         for c in self.cs:
             c.__enter__()
 
@@ -314,6 +329,22 @@ def make_noreset(op):
             return {"reproduced": bool(rewound), "signature": "global-reseed:load-rewinds-the-run-to-its-seed", "payload": {"first_draws_of_the_run": first_draws_of_the_run, "draws_after_load": draws_after_load},
                     "what": f"after two iterations, save and load into a new sampler, the next global draws {draws_after_load[:2]} are "
                             f"{'exactly the first draws of the original run' if rewound else 'not the first draws of the original run'}: the resumed iterations replay the innovations of iterations 1, 2, ..."}
+        if label == "no-unseeded-entropy-source" and "hash() of text" in str(v.get("detail")):
+            # two fresh interpreters with different hash salts, same seeded computation
+            import subprocess, sys as _sys
+            from vf.engine.harness import REPO
+            code = ("import sys, hashlib, warnings; sys.path.insert(0, %r); warnings.simplefilter('ignore'); import numpy as np\n"
+                    "from tempest.cluster import HierarchicalGaussianMixture\n"
+                    "rs = np.random.RandomState(0); X = np.vstack([rs.randn(40, 2) * 0.05 + c for c in ([0.2, 0.2], [0.8, 0.3], [0.5, 0.8])])\n"
+                    "np.random.seed(3); h = HierarchicalGaussianMixture(); h.fit(X)\n"
+                    "print(hashlib.sha256(np.asarray(h.predict(X)).tobytes()).hexdigest(), np.random.rand())\n" % REPO)
+            outs = []
+            for salt in ("1", "2", "3"):
+                r = subprocess.run([_sys.executable, "-c", code], capture_output=True, text=True, env={**os.environ, "PYTHONHASHSEED": salt}, timeout=600)
+                outs.append(r.stdout.strip().splitlines()[-1] if r.stdout.strip() else "failed: " + r.stderr[-200:])
+            bad = len(set(outs)) > 1
+            return {"reproduced": bad, "signature": f"unseeded-entropy:hash-salt:{op}", "payload": {"outputs": outs},
+                    "what": f"the same seeded hierarchical fit in three fresh interpreters (PYTHONHASHSEED=1,2,3) gives {'different' if bad else 'identical'} labels: {outs}"}
         if label == "no-unseeded-entropy-source" and op.startswith("sampler-iterations"):
             # same seed, same inputs, twice: any entropy source outside the seeded stream shows up as different particles
             saved0 = np.random.get_state()
@@ -475,22 +506,30 @@ def make_seeding():
         if k2 == k1:
             k2 = k1 + 1
         saved = np.random.get_state()
+        # the symbolic seed stands for any integer value: replayed in every integer representation numpy users pass around
+        reps = [("int", int), ("numpy.int64", np.int64)] + ([("numpy.int32", np.int32)] if max(k1, k2) < 2 ** 31 else [])
+        out = None
         try:
-            a = run(1, k1)
-            b = run(2, k1)
-            c = run(1, k2)
+            for rep_name, rep in reps:
+                a = run(1, rep(k1))
+                b = run(2, rep(k1))
+                c = run(1, rep(k2))
+                if label.startswith("different-seeds"):
+                    bad = a == c
+                    what = f"random_state={rep_name}({k1}) and {rep_name}({k2}) from the same global stream give {'identical' if bad else 'different'} particles"
+                else:
+                    bad = a != b
+                    what = (f"two constructions with random_state={rep_name}({k1}) (global stream seeded 1 resp. 2 beforehand) give "
+                            f"{'different' if bad else 'identical'} particles: {a[:2]} vs {b[:2]}")
+                out = {"reproduced": bad, "signature": "random_state-not-applied-at-construction", "payload": {"run_a": a, "run_b": b, "run_c": c, "seed_type": rep_name}, "what": what}
+                if bad:
+                    break
         finally:
             np.random.set_state(saved)
-        if label.startswith("different-seeds"):
-            bad = a == c
-            what = f"random_state={k1} and random_state={k2} from the same global stream give {'identical' if bad else 'different'} particles"
-        else:
-            bad = a != b
-            what = f"two constructions with random_state={k1} (global stream seeded 1 resp. 2 beforehand) give {'different' if bad else 'identical'} particles: {a[:2]} vs {b[:2]}"
-        return {"reproduced": bad, "signature": "random_state-not-applied-at-construction", "payload": {"run_a": a, "run_b": b, "run_c": c}, "what": what}
+        return out
 
     return Obligation("seeding-at-construction", harness, replay=replay, encodes=[Sampler.__init__, core_mod.SamplerCore.__init__, mutate_mod.Mutator.run],
-                      bounds="symbolic random_state in [0, 2^31], symbolic initial stream state, one concrete target", theory="UF+LIA (quantified injectivity axiom)",
+                      bounds="symbolic random_state in [0, 2^31] (an integer of any representation: the replay passes int, numpy.int64, numpy.int32), symbolic initial stream state, one concrete target", theory="UF+LIA (quantified injectivity axiom)",
                       stubs=["np.random (global) -> threaded abstract stream state"])
 
 
